@@ -912,6 +912,10 @@ func decodeLine(b []byte) string {
 // ------------------------------------------------------------------ generators per op
 
 func genCodec(r *RNG, n int, which string, emit func(string)) {
+	if which == "findn" {
+		genFindN(r, n, emit)
+		return
+	}
 	for i := 0; i < n; i++ {
 		switch which {
 		case "build":
